@@ -7,6 +7,7 @@ mod mgmt;
 mod c04;
 mod ast;
 mod c01;
+mod c05;
 
 use proto::Recorder;
 use std::path::PathBuf;
@@ -49,6 +50,7 @@ fn main() {
             }
         }
         "C01" => c01::run(&mut rec, &mut w, &tier, seed),
+        "C05" => c05::run(&mut rec, &mut w, &tier, seed),
         "C02" => c02::run(&mut rec, &mut w, &tier, seed),
         "C03" => c03::run(&mut rec, &mut w, &tier, seed),
         "C04" => c04::run(&mut rec, &mut w, &tier, seed),
